@@ -19,6 +19,7 @@ Inductive kcmd :=
 | KCincrby (k : bytes) (d : Z) | KCappend (k v : bytes) | KCsetrange (k : bytes) (off : Z) (v : bytes)
 | KCdel (ks : list bytes)
 | KCsetex (k : bytes) (dur : Z) (v : bytes) | KCexpire (k : bytes) (dur : Z) | KCpersist (k : bytes)
+| KCsetopt (k v : bytes) (dur : Z) (nx xx : bool)      (* SET key value [EX s] [NX|XX]; dur = 0: no EX *)
 | KCinvalid.
 Inductive kqry :=
 | KQget (key : bytes) | KQstrlen (key : bytes) | KQexists (keys : list bytes)
@@ -61,6 +62,22 @@ Definition kstep (compact : bool) (ts : Z) (c : kcmd) (m : kstore) : kstore * re
   | KCset k v =>
       (* resetWithNewKVValue: a fresh header, no expiry *)
       if negb (key_ok k) || negb (value_ok v) then (m, RErr) else (aput bytes_eqb k (0, v) m, RInt 1)
+  | KCsetopt k v dur nx xx =>
+      (* KVSetWithOpts: reply 1 = written, 0 = the NX / XX condition failed (the node layer rewrites 0 to nil) *)
+      if negb (value_ok v) then (m, RErr)
+      else if negb (key_ok k) then (m, RErr)
+      else match get k with
+           | Some _ => if nx then (m, RInt 0) else
+               if 0 <? dur then
+                 if compact then if when_overflows (sec_of ts + dur) then (m, RErr) else (aput bytes_eqb k (sec_of ts + dur, v) m, RInt 1)
+                 else if int64_max <? sec_of ts + dur then (m, RErr) else (aput bytes_eqb k (0, v) m, RInt 1)
+               else (aput bytes_eqb k (0, v) m, RInt 1)
+           | None => if xx then (m, RInt 0) else
+               if 0 <? dur then
+                 if compact then if when_overflows (sec_of ts + dur) then (m, RErr) else (aput bytes_eqb k (sec_of ts + dur, v) m, RInt 1)
+                 else if int64_max <? sec_of ts + dur then (m, RErr) else (aput bytes_eqb k (0, v) m, RInt 1)
+               else (aput bytes_eqb k (0, v) m, RInt 1)
+           end
   | KCsetex k dur v =>
       if dur <=? 0 then (m, RErr)
       else if negb (key_ok k) || negb (value_ok v) then (m, RErr)
@@ -153,8 +170,39 @@ Definition kquery (compact : bool) (now : Z) (q : kqry) (m : kstore) : reply :=
 (* ---------- argument parsing (node/keys.go) ---------- *)
 Local Open Scope N_scope.
 Definition kname (n : bytes) (l : list N) : bool := bytes_eqb n l.
+(* getExNxXXArgs: the options after SET key value, case-insensitive, in any order: NX | XX (at most one of
+   them), EX seconds (a positive integer; a repeated EX keeps the last); None = ErrInvalidArgs / ErrInvalidTTL *)
+Definition w_nx : bytes := [110; 120].
+Definition w_xx : bytes := [120; 120].
+Definition w_ex : bytes := [101; 120].
+Fixpoint set_opts (opts : list bytes) (dur : Z) (nx xx : bool) : option (Z * bool * bool) :=
+  match opts with
+  | [] => Some (dur, nx, xx)
+  | o :: r =>
+      let w := map lower o in
+      if bytes_eqb w w_nx then if nx || xx then None else set_opts r dur true xx
+      else if bytes_eqb w w_xx then if nx || xx then None else set_opts r dur nx true
+      else if bytes_eqb w w_ex then
+        match r with
+        | s :: r' => match parse_int64 s with
+                     | Some d => if (d <=? 0)%Z then None else set_opts r' d nx xx
+                     | None => None
+                     end
+        | [] => None
+        end
+      else None
+  end.
 Definition parse_k (n : bytes) (args : list bytes) : option (kcmd + kqry) :=
-  if kname n [115;101;116] then match args with [k; v] => Some (inl (KCset k v)) | _ => None end
+  if kname n [115;101;116] then
+    match args with
+    | [k; v] => Some (inl (KCset k v))
+    | k :: v :: opts =>
+        match set_opts opts 0%Z false false with
+        | Some (d, nx, xx) => Some (inl (KCsetopt k v d nx xx))
+        | None => Some (inl KCinvalid)
+        end
+    | _ => None
+    end
   else if kname n [115;101;116;110;120] then match args with [k; v] => Some (inl (KCsetnx k v)) | _ => None end
   else if kname n [103;101;116;115;101;116] then match args with [k; v] => Some (inl (KCgetset k v)) | _ => None end
   else if kname n [105;110;99;114] then match args with [k] => Some (inl (KCincrby k 1%Z)) | _ => None end
